@@ -40,6 +40,19 @@ def install_schema(reg: Registry):
         return sv
     reg.classes[ASSOC].getattr_hook = assoc_getattr
 
+    # PJS (assumed): getattr(asset, <defense name>) reads the asset's value of that defense property; modelled as a lookup in a
+    # ghost dict `defvals` of the asset (AttributeError when the generated class has no such property)
+    s.add_class(ASSET, {'defvals': Dict(T.str, T.val)})
+
+    def asset_getattr(ex, st, o, name):
+        a = ex.as_ref(o, st, 'getattr')
+        D = st.h.f('defvals', a)
+        ex.side_raise(st, 'AttributeError', z3.Not(st.h.has(D, VStr(name.t))), 'getattr(asset, <name>): no such property')
+        return SV('val', st.h.val(D, VStr(name.t)), T.val)
+    if ASSET not in reg.classes:
+        reg.classes[ASSET] = ClassInfo(ASSET, None, False)
+    reg.classes[ASSET].getattr_hook = asset_getattr
+
 
 def linked_through(h: H, s, f, x, y):
     """association s links x to y through field f (y sits in the field named f, x in the opposite field)"""
